@@ -162,6 +162,10 @@ def r_forms(ctx, rule='R-FORM'):
         for b, k, tt in paths.ret_assigns(g) if g else []:
             s = strip(tt)
             okc = s[0] == 'call' and s[1].endswith('f32>::abs') and strip(s[2][0])[0] == 'binop' and strip(s[2][0])[1] == 'Sub' and _pair(strip(s[2][0]))
+            if not okc and s[0] == 'call' and s[1].endswith('f32>::max') and len(s[2]) == 2:
+                a, b = strip(s[2][0]), strip(s[2][1])
+                okc = (a[0] == 'binop' and b[0] == 'binop' and a[1] == b[1] == 'Sub' and _pair(a) and _pair(b)
+                       and strip_all(a[2]) == strip_all(b[3]) and strip_all(a[3]) == strip_all(b[2]))
     zipc = [x for x in walk(t[0]) if x[0] == 'call' and x[1].endswith('Iterator::zip')] if t else []
     okz = bool(zipc) and vec_args(('call', '', [root_arg_keep(zipc[0][2][0]), root_arg_keep(zipc[0][2][1])], 0), f)
     ctx.check(good and okc and okz, rule, 'Manhattan/built', f.loc(), 'sum |p_i - q_i| over zip(p.vector, q.vector)', 'Manhattan::built_distance is not the sum of |p_i - q_i|')
